@@ -91,6 +91,20 @@ def complementOp (j : Json) : R Json := do
   let d := complement (1 : QI) (pts[0]!, pts[1]!, pts[2]!, pts[3]!)
   return ofPt d.2.2.2
 
+def v3Of (j : Json) : R (V3 ℚ) := do
+  let a ← qArr j
+  if a.size ≠ 3 then throw "expected [x, y, z]"
+  return (a[0]!, a[1]!, a[2]!)
+
+def ofV3 (v : V3 ℚ) : Json := .arr #[ofQ v.1, ofQ v.2.1, ofQ v.2.2]
+
+/-- the three spherical boundary points of `CP1Disk(center, rad, "fs")`, given the QR factors
+(columns of `q`, `r[0,0]`) and `cos(2 rad)`, `sin(2 rad)` -/
+def fsBoundaryOp (j : Json) : R Json := do
+  let b := fsBoundary (← v3Of (← field j "q0")) (← v3Of (← field j "q1")) (← v3Of (← field j "q2"))
+    (← qf j "r00") (← qf j "c2") (← qf j "s2")
+  return .arr #[ofV3 b.1, ofV3 b.2.1, ofV3 b.2.2]
+
 def interactionsOp (j : Json) : R Json := do
   let t := interactions (← qf j "d") (← qf j "r1") (← qf j "r2")
   return .arr #[.bool t.1, .bool t.2.1, .bool t.2.2]
@@ -124,6 +138,6 @@ def relOp (which : String) (j : Json) : R Json := do
 def ops : List (String × Handler) :=
   [("c20.p2s", p2sOp), ("c20.s2p", s2pOp), ("c20.circle", circleOp), ("c20.disk", diskOp),
    ("c20.mobius", mobiusOp), ("c20.cross_ratio", crossOp), ("c20.complement", complementOp),
-   ("c20.interactions", interactionsOp), ("c20.contains", relOp "contains"),
+   ("c20.interactions", interactionsOp), ("c20.fs_boundary", fsBoundaryOp), ("c20.contains", relOp "contains"),
    ("c20.intersects", relOp "intersects")]
 end GT.Driver.C20
